@@ -129,6 +129,10 @@ def run_kernel(ctx, cfg):
     x = (V + k + V * fsqrt(1 + 2 * k / V)) * (c * c * L * rho ** (-2 * h) / (nu * nu))
     if isinstance(tau, CeilSym):
         ctx.check_eq("kernel:tau", Sym(tau.arg), x, "VHCT threshold is not the ceiling of the published expression")
+    elif not ctx.symbolic:
+        xf = float(x)
+        ok = float(tau) == _math.ceil(xf) or abs(xf - round(xf)) < 1e-9 * max(1.0, abs(xf)) and abs(float(tau) - round(xf)) <= 1
+        ctx.check("kernel:tau", ok, "VHCT threshold %r is not the ceiling of the published expression %r" % (tau, xf))
     else:
         ctx.fail("kernel:tau", "threshold is not a ceiling: %r" % (tau,))
 
